@@ -173,7 +173,8 @@ func K4() *Entry {
 	c := BaseConfig("Casts")
 	// custom types through configuration: one with the default suffix, one with a suffixes entry
 	c.CustomTypes = map[string]string{"Casts.Joined": "verif/types.Joined", "Casts.Plain": "verif/types.Labels", "Casts.PlainToo": "verif/types.Labels", "Casts.UnderPath": "verif/my_lib/api_v2.Owner_Ref"}
-	c.Suffixes = map[string]string{"CustomB": "Switch", "verif/types.Labels": "LabelSet"}
+	// (suffixes are taken verbatim: acronyms, digits before capitals)
+	c.Suffixes = map[string]string{"CustomB": "Switch", "verif/types.Labels": "HTTPLabelsV2"}
 	return &Entry{Name: "k4", File: f, Cfg: c, Tags: []string{"cast", "custom", "oneof"}}
 }
 
@@ -280,7 +281,7 @@ func K8() *Entry {
 		F("PlainName", Cmt(" PlainName is the name of the package to install\n package main\n")), F("lower_snake_name"), F("single"), F("WithDigits2"),
 		// lower_snake segments that end in digits or are single letters: the attribute name is the proto name itself
 		F("ipv4_addr"), F("sha256_sum", Sc(ir.Bytes)), F("s3_bucket"), F("a_b_c", Sc(ir.Int32)), F("x2_y2_z", Rep()), F("Tagged", JSON("tagged_name")), F("TaggedOmit", JSON("tagged_omit,omitempty")),
-		F("TagDash", JSON("-")), F("TagEmpty", JSON("")), F("TagDashOmit", JSON("-,omitempty")), F("TagOnlyOmit", JSON(",omitempty")), F("tag_only_string", Sc(ir.Int64), JSON(",string")),
+		F("TagDash", JSON("-")), F("TagEmpty", JSON("")), F("TagDashOmit", JSON("-,omitempty")), F("TagOnlyOmit", JSON(",omitempty")), F("type"), F("range", Sc(ir.Int64)), F("tag_only_string", Sc(ir.Int64), JSON(",string")),
 		F("ID", JSON("id")), F("AWSRoleARNs", Rep()), F("DurMP", Sc(ir.Int64)), F("Overridden", JSON("tag_loses")),
 		F("ByTypeKey"), F("Child", MsgT("NamedChild")), F("Children", MsgT("NamedChild"), Rep()),
 		// json tags and overrides are taken verbatim: camelCase, acronyms, hyphens
@@ -543,7 +544,7 @@ func K15() *Entry {
 	c.ExcludeFields = []string{"Gamma.Secret", "Gamma.Token", "Shelf.Entries.key", "Shelf.Entries.value"}
 	// a repeated message field handled by custom-type hooks, its children excluded
 	c.CustomTypes = map[string]string{"Shelf.Entries": "verif/types.Boxed"}
-	c.Suffixes = map[string]string{"verif/types.Boxed": "BoxedEntries"}
+	c.Suffixes = map[string]string{"verif/types.Boxed": "X509Entries"}
 	c.InjectedFields = map[string][]ir.Injected{"Gamma": {{Name: "injected_id", Type: "github.com/hashicorp/terraform-plugin-framework/types.StringType", Computed: true}}}
 	return &Entry{Name: "k15", File: f, Cfg: c, Tags: []string{"entry-shaped-message", "all-fields-excluded"}}
 }
